@@ -198,7 +198,10 @@ func mapRangeIsCollectSort(fn *ssa.Function, rg *ssa.Range) bool {
 		for _, in := range b.Instrs {
 			if c, ok := in.(*ssa.Call); ok {
 				n := CalleeName(&c.Call)
-				if strings.HasPrefix(n, "sort.") || strings.HasPrefix(n, "slices.Sort") {
+				// only natural total orders: a custom comparator (sort.Slice, slices.SortFunc) may tie on distinct keys
+				// and then leaves them in map order
+				switch n {
+				case "sort.Strings", "sort.Ints", "sort.Float64s", "slices.Sort":
 					return true
 				}
 			}
